@@ -56,9 +56,19 @@ class Script:
             setattr(np.random, n, f)
 
     def _scalar(self, kind, a, k):
-        if a or k:
+        if not a and not k:
+            return self.take(kind)
+        # size argument(s): random_sample(size) / random(size) / rand(d0, d1, ...): consecutive variates
+        if kind == "rand":
+            shape = tuple(int(x) for x in a)
+        else:
+            size = a[0] if a else k.get("size")
+            shape = () if size is None else (tuple(int(x) for x in size) if isinstance(size, (tuple, list)) else (int(size),))
+        if set(k) - {"size"} or (kind != "rand" and len(a) > 1):
             raise TypeError("scripted np.random.%s called with arguments %r %r" % (kind, a, k))
-        return self.take(kind)
+        n = int(np.prod(shape)) if shape else 1
+        vals = np.array([self.take(kind) for _ in range(n)])
+        return vals.reshape(shape) if shape else float(vals[0])
 
     def _uniform(self, low=0.0, high=1.0, size=None):
         low, high = np.asarray(low, dtype=float), np.asarray(high, dtype=float)
@@ -992,13 +1002,151 @@ def probe_reconfigure(ctx):
                      "%s after the assignments %s: %s" % ("CylindricalGenerator" if cfg["cyl"] else "RectangularGenerator", json.dumps(hist), what), rep)
 
 
+# ------------------------------------------------------------------ each coordinate depends on its own variate
+def _cyl_coords(v, dims):
+    return [(v[0] * v[0] + v[1] * v[1]) / (dims[0] * dims[0]), (math.atan2(v[1], v[0]) % (2 * math.pi)) / (2 * math.pi), -v[2] / dims[1]]
+
+
+def _box_coords(v, dims):
+    return [v[0] / dims[0] + 0.5, v[1] / dims[1] + 0.5, -v[2] / dims[2]]
+
+
+def _dir_coords(d, dims=None):
+    return [(d[2] + 1) / 2, (math.atan2(d[1], d[0]) % (2 * math.pi)) / (2 * math.pi)]
+
+
+def probe_own_variate(ctx):
+    """Uniformity / isotropy as implemented (sqrt-radius, uniform azimuth and depth; affine box coordinates;
+    uniform cos(theta) and azimuth; flavour and nu/nubar thresholds) needs every coordinate to be driven by a
+    variate of its own.  Scripted streams, one variate varied at a time: exactly one of the (volume-uniform)
+    coordinates may change, different variates drive different coordinates, and all coordinates are driven.
+    No particular assignment of variates to coordinates is assumed."""
+    g = gmod()
+    rng = ctx.rng
+    for _ in range(ctx.n(25, 400)):
+        cd = (rng.choice([1000.0, 512.0]), rng.choice([1500.0, 2800.0]))
+        bd = (rng.choice([1000.0, 256.0]), rng.choice([3000.0, 64.0]), rng.choice([1500.0, 2048.0]))
+        cyl = g.CylindricalGenerator(cd[0], cd[1], 1e9, interaction_model=StubInteraction)
+        box = g.RectangularGenerator(bd[0], bd[1], bd[2], 1e9, interaction_model=StubInteraction)
+        targets = [("CylindricalGenerator%r.get_vertex" % (cd,), cyl.get_vertex, 3, lambda v: _cyl_coords(v, cd), 1),
+                   ("RectangularGenerator%r.get_vertex" % (bd,), box.get_vertex, 3, lambda v: _box_coords(v, bd), None),
+                   ("get_direction", cyl.get_direction, 2, _dir_coords, 1)]
+        for name, fn, nvar, coords, cyclic in targets:
+            u0 = [rng.uniform(0.15, 0.85) for _ in range(nvar)]
+            pad = [0.5] * 8
+
+            def run(us):
+                with np.errstate(all="ignore"):
+                    with Script(list(us) + pad) as sc:
+                        out = fn()
+                        return coords([float(x) for x in out]), sc.pos
+            try:
+                c0, used = run(u0)
+            except Exception as e:
+                ctx.fail("own-variate-raises:%s:%r" % (name, u0), "%s raises %r on the scripted variates %r" % (name, e, u0), {"kind": "own_variate", "fn": name, "us": u0})
+                continue
+            ctx.case(key=("own-variate", name, tuple(u0)))
+            if used != nvar:
+                continue                    # a different number of draws: not this probe's business (the correspondence reports it)
+            driven = {}
+            what = None
+            for j in range(nvar):
+                changed = set()
+                for delta in (0.07, -0.11, 0.13):
+                    u1 = list(u0)
+                    u1[j] = u0[j] + delta
+                    c1, _ = run(u1)
+                    for i, (a, b) in enumerate(zip(c0, c1)):
+                        dist = min(abs(a - b), 1 - abs(a - b)) if i == cyclic else abs(a - b)      # the azimuth is cyclic
+                        if dist > 1e-9:
+                            changed.add(i)
+                driven[j] = sorted(changed)
+                if len(changed) != 1:
+                    what = "varying variate %d alone (from %r by +0.07, -0.11, +0.13) changes the coordinates %s (exactly one expected)" % (j + 1, u0[j], sorted(changed))
+                    break
+            if what is None and sorted(x[0] for x in driven.values()) != list(range(nvar)):
+                what = "the variates drive the coordinates %s: some coordinate has no variate of its own" % driven
+            if what:
+                labels = {"get_direction": "(cos theta, azimuth)"}.get(name, "(r^2, azimuth, depth)" if name.startswith("Cyl") else "(x, y, z)")
+                ctx.fail("own-variate:%s:%r" % (name, u0), "%s on the scripted variates %r, normalised coordinates %s = %r: %s" % (name, u0, labels, c0, what),
+                         {"kind": "own_variate", "fn": name, "us": u0})
+        # particle type: flavour from u1 only, neutrino/antineutrino from u2 only
+        gen = g.CylindricalGenerator(1000.0, 1000.0, 1e9, flavor_ratio=(0.25, 0.25, 0.5), source=rng.choice(["pgamma", "pp"]), interaction_model=StubInteraction)
+
+        def ptype(u1, u2):
+            with Script([u1, u2] + [0.5] * 4) as sc:
+                t = gen.get_particle_type().value
+                return t, sc.pos
+        grid = [0.05, 0.3, 0.45, 0.7, 0.95]
+        try:
+            tab = {(a, b): ptype(a, b) for a in grid for b in grid}
+        except Exception as e:
+            ctx.fail("own-variate-raises:get_particle_type", "get_particle_type raises %r on scripted variates" % (e,), {"kind": "own_variate", "fn": "get_particle_type"})
+            continue
+        if any(v[1] != 2 for v in tab.values()):
+            continue
+        what = None
+        for a in grid:
+            if len({abs(tab[(a, b)][0]) for b in grid}) != 1:
+                what = "the flavour changes with the second variate alone (first variate %r): %s" % (a, [tab[(a, b)][0] for b in grid])
+        for b in (0.05, 0.3, 0.45):         # below every neutrino fraction (0.5 .. 0.78): always a neutrino, whatever the flavour
+            if len({tab[(a, b)][0] > 0 for a in grid}) != 1:
+                what = "neutrino / antineutrino changes with the first variate alone (second variate %r): %s" % (b, [tab[(a, b)][0] for a in grid])
+        if what is None and (len({abs(v[0]) for v in tab.values()}) < 3 or len({v[0] > 0 for v in tab.values()}) < 2):
+            what = "the variates do not reach all three flavours and both signs: %s" % sorted({v[0] for v in tab.values()})
+        ctx.case(key=("own-variate", "type", gen.source.name))
+        if what:
+            ctx.fail("own-variate:get_particle_type:%s" % gen.source.name, "get_particle_type (ratio 1:1:2, source %s) on scripted variates from %r: %s" % (gen.source.name, grid, what),
+                     {"kind": "own_variate", "fn": "get_particle_type", "grid": grid})
+
+
+def probe_joint_uniformity(ctx):
+    """Joint (not only marginal) uniformity: equal-volume cells 4 x 4 x 4 of (r^2, azimuth, depth) / (x, y, z) and 8 x 8 of
+    (cos theta, azimuth).  Each cell frequency is within sqrt(ln(2 m / delta) / (2 N)) of 1/m (Hoeffding + union bound over
+    the m cells, delta = 2e-11 per test: rigorous for every N); the Pearson chi-square is recorded for information."""
+    g = gmod()
+    st = np.random.get_state()
+    np.random.seed((ctx.seed * 104729 + 71) % (2 ** 32))
+    N = 200000 if ctx.thorough else 100000
+    delta = 2e-11
+    out = {}
+    try:
+        cd, bd = (700.0, 1900.0), (300.0, 5000.0, 1200.0)
+        cyl = g.CylindricalGenerator(cd[0], cd[1], 1e9, interaction_model=StubInteraction)
+        box = g.RectangularGenerator(bd[0], bd[1], bd[2], 1e9, interaction_model=StubInteraction)
+        for name, fn, coords, bins in (("cylinder vertex (r^2, azimuth, depth)", cyl.get_vertex, lambda v: _cyl_coords(v, cd), (4, 4, 4)),
+                                       ("box vertex (x, y, z)", box.get_vertex, lambda v: _box_coords(v, bd), (4, 4, 4)),
+                                       ("direction (cos theta, azimuth)", cyl.get_direction, _dir_coords, (8, 8))):
+            pts = np.array([coords(fn()) for _ in range(N)])
+            idx = np.zeros(N, dtype=int)
+            m = 1
+            for k, b in enumerate(bins):
+                idx = idx * b + np.clip((pts[:, k] * b).astype(int), 0, b - 1)
+                m *= b
+            counts = np.bincount(idx, minlength=m)
+            crit = math.sqrt(math.log(2 * m / delta) / (2 * N))
+            dev = float(np.max(np.abs(counts / N - 1.0 / m)))
+            chi2 = float(np.sum((counts - N / m) ** 2 / (N / m)))
+            out[name] = {"cells": m, "N": N, "max |freq - 1/m|": round(dev, 6), "critical(Hoeffding+union)": round(crit, 6), "pearson chi2": round(chi2, 1), "dof": m - 1}
+            if dev > crit:
+                worst = int(np.argmax(np.abs(counts / N - 1.0 / m)))
+                ctx.fail("joint-uniformity:%s" % name, "%s: cell %d of %d equal-volume cells holds %d of %d points (%.5f, expected %.5f +- %.5f, false-alarm probability %.0e); Pearson chi2 = %.0f on %d dof" % (
+                    name, worst, m, counts[worst], N, counts[worst] / N, 1.0 / m, crit, delta, chi2, m - 1),
+                    {"kind": "statistics", "test": "joint " + name, "seed": ctx.seed, "numpy_seed": (ctx.seed * 104729 + 71) % (2 ** 32), "N": N})
+    finally:
+        np.random.set_state(st)
+    ctx.extra["joint_uniformity(supplementary)"] = out
+
+
 def probes(ctx):
+    probe_own_variate(ctx)
     probe_reconfigure(ctx)
     probe_exit(ctx)
     probe_weights(ctx)
     if ctx.thorough or ctx.broken:
         # search for a concrete (statistical) witness when a proof / correspondence broke
         probe_statistics(ctx)
+        probe_joint_uniformity(ctx)
 
 
 # ------------------------------------------------------------------ entry points
